@@ -50,6 +50,23 @@ def render(tree):
     return folded, unfolded
 
 
+def render_mixed(tree):
+    """the two half-folded renderings: literals at odd (resp. even) leaf positions go through variables, the others stay"""
+    out = []
+    for parity in (0, 1):
+        decls, pos = [], [0]
+
+        def leaf(l):
+            pos[0] += 1
+            if pos[0] % 2 == parity:
+                return l["src"]
+            decls.append(f"v{len(decls) + 1} = {l['src']}")
+            return f"v{len(decls)}"
+        body = text(tree, leaf)
+        out.append("\n".join(decls) + ('\n' if decls else '') + 'print "go"\nprint ' + body + "\n")
+    return out
+
+
 def scalar(kind, txt, bits=None):
     k = KINDMAP.get(kind, kind)
     if k == "float":
@@ -118,11 +135,13 @@ def run(tier, replay=None):
         f, u = render(c["tree"])
         c["folded_src"], c["unfolded_src"] = f, u
         c["folded"], c["unfolded"] = observe(binary, root, f), observe(binary, root, u)
+        c["mixed_src"] = [s for s in dict.fromkeys(render_mixed(c["tree"])) if s not in (f, u)] if c["tree"]["k"] != "list2" else []
+        c["mixed"] = [observe(binary, root, s) for s in c["mixed_src"]]
         return c
     C.pmap(one, cases)
     slim = lambda o: dict(status=o["status"], val=o["val"], vals=o["vals"])
     fcs = work / "cases.ndjson"
-    C.write_ndjson(fcs, [dict(id=c["id"], tree=c["tree"], folded=slim(c["folded"]), unfolded=slim(c["unfolded"])) for c in cases])
+    C.write_ndjson(fcs, [dict(id=c["id"], tree=c["tree"], folded=slim(c["folded"]), unfolded=slim(c["unfolded"]), mixed=[slim(o) for o in c["mixed"]]) for c in cases])
     r = C.tlc("CheckFold", "CheckFold", work / "judge", env=dict(CASES=str(fcs)), workers=12, timeout=3000, heap_mb=10000)
     if r.error or r.invariant_violated:
         raise C.ToolError(f"CheckFold: {r.error or r.invariant_violated}")
@@ -133,7 +152,7 @@ def run(tier, replay=None):
         c = byid[d["id"]]
         fo, un = c["folded"], c["unfolded"]
         rep.violation(d["id"], f"tree [{d['id']}]: specification prescribes {d['expected']}; folded rendering: {fo['status']} {(fo['vals'] or fo['val']) if fo['status']=='ok' else (fo['diag'] or fo['err'])[-140:]!r}; unfolded rendering: {un['status']} {(un['vals'] or un['val']) if un['status']=='ok' else (un['diag'] or un['err'])[-140:]!r}",
-                      dict(case=c["id"], expected=d["expected"], folded=fo, unfolded=un, files={"folded.ms": c["folded_src"], "unfolded.ms": c["unfolded_src"]}))
+                      dict(case=c["id"], expected=d["expected"], folded=fo, unfolded=un, mixed=c["mixed"], files={"folded.ms": c["folded_src"], "unfolded.ms": c["unfolded_src"], **{f"mixed{k}.ms": s for k, s in enumerate(c["mixed_src"])}}))
     skips = len(r.prints.get("SKIP", []))
     # ---- the unfolded renderings one level down: every instruction of the run (make_bigint / make_byte / make_float, bin_op and
     # neg on the numeric tower, with the value on top of the operand stack after each) must be a step of the value machine MSVMV
@@ -142,10 +161,10 @@ def run(tier, replay=None):
     vres = vmv.stage(binary, work / "vmv", vpool, 600 if tier == "quick" else 8000, random.Random(rep.seed))
     vcov = vmv.report(rep, vres, "unfolded expression tree")
     rep.coverage = dict(**vcov, traces_validated_against_impl=vres["recorded"],
-        programs=2 * len(cases), disagreements_checked=len(r.prints.get("DISAGREE", [])), trees=len(cases), out_of_model_or_ill_typed=skips,
+        programs=2 * len(cases) + sum(len(c["mixed"]) for c in cases), mixed_renderings=sum(len(c["mixed"]) for c in cases), disagreements_checked=len(r.prints.get("DISAGREE", [])), trees=len(cases), out_of_model_or_ill_typed=skips,
         states=r.distinct + g1.distinct + vres["states"], transitions=r.generated + g1.generated + vres["transitions"],
         evaluations=len(cases), distinct_nontrivial=len(cases) - skips,
-        rule="GenExpr.tla: every tree with at most one operator level over the literal set (quick: 10 literals, thorough: 27) x {+ - * / % << >> & | xor, unary minus, get, or} incl. two-element lists, plus seeded -simulate trees up to depth 3 below the root; each rendered folded and unfolded",
+        rule="GenExpr.tla: every tree with at most one operator level over the literal set (quick: 10 literals, thorough: 27) x {+ - * / % << >> & | xor, unary minus, get, or} incl. two-element lists, plus seeded -simulate trees up to depth 3 below the root; each rendered folded, unfolded and half-folded (every other literal through a variable, both parities)",
         samples=[dict(tree=c["id"], folded=c["folded_src"].split("\n")[1], unfolded_status=c["unfolded"]["status"], value=c["unfolded"]["val"]) for c in cases[:: max(1, len(cases) // 3)][:3]],
     )
     rep.assumptions = ["literals are non-negative; a sign is an operator node in both renderings", "MSNum self-tested against an independent reference (see C05)",
